@@ -1847,7 +1847,7 @@ fn main() {
     ctx.obs("scenarios.matrix_planned", work.iter().filter(|w| w.0 == Kind::Matrix).count() as u64);
     ctx.obs("scenarios.split_planned", work.iter().filter(|w| w.0 == Kind::Split).count() as u64);
     let sem = Arc::new(tokio::sync::Semaphore::new(24));
-    let wall_limit = Duration::from_secs(ctx.pick(80, 520));
+    let wall_limit = Duration::from_secs_f64(ctx.pick(80.0, 520.0) * Ctx::wall_scale());
     let started = Instant::now();
     let skipped = Arc::new(AtomicU64::new(0));
     let handles: Vec<_> = work
